@@ -12,6 +12,7 @@ void h_dtor(void) { IN_FD; scoped_fd* s; scoped_fd_dtor(s); VERIF_REACH(); }
 void h_move_assign(void) { IN_FD; scoped_fd* s; scoped_fd* o; scoped_fd_move_assign(s, o); VERIF_REACH(); }
 void h_assign_int(void) { IN_FD; scoped_fd* s; int in_other; scoped_fd_assign_int(s, in_other); VERIF_REACH(); }
 void h_to_int(void) { IN_FD; scoped_fd* s; scoped_fd_to_int(s); VERIF_REACH(); }
+void h_open(void) { IN_FD; scoped_fd* s; const char* fn; int in_mode; unsigned in_perm; verif_exc = 0; scoped_fd_open(s, fn, in_mode, in_perm); VERIF_REACH(); }
 void h_is_open(void) { IN_FD; scoped_fd* s; scoped_fd_is_open(s); VERIF_REACH(); }
 
 /* lifetimes: every descriptor handed to a scoped_fd is closed exactly once by the time all objects are destroyed,
